@@ -3,6 +3,7 @@ package main
 import (
 	"go/token"
 	"go/types"
+	"strings"
 
 	"golang.org/x/tools/go/ssa"
 )
@@ -171,12 +172,24 @@ func (w *World) classifyValueUsesD(fn *ssa.Function, loaded ssa.Value, loadInstr
 		case *ssa.Range:
 			out = append(out, Access{Fn: fn, Instr: u, Kind: "range", Base: base, FA: fa})
 			any = true
+		case *ssa.ChangeType:
+			// the same map under another (named or instantiated) type: a generic wrapper's entry converting its receiver
+			if isMapType(u.Type()) {
+				if sub := w.classifyValueUsesD(fn, u, loadInstr, base, fa, depth); len(sub) > 0 {
+					for _, sa := range sub {
+						if sa.Instr != loadInstr || sa.Kind != "read" {
+							out = append(out, sa)
+						}
+					}
+					any = true
+				}
+			}
 		case ssa.CallInstruction:
 			c := u.Common()
 			if b, ok := c.Value.(*ssa.Builtin); ok && b.Name() == "delete" && len(c.Args) > 0 && c.Args[0] == loaded {
 				out = append(out, Access{Fn: fn, Instr: u, Kind: "mapdelete", Base: base, FA: fa})
 				any = true
-			} else if g := c.StaticCallee(); g != nil && !c.IsInvoke() && depth < 2 && w.InRepo(g) && len(g.Blocks) > 0 && isMapType(loaded.Type()) {
+			} else if g := c.StaticCallee(); g != nil && !c.IsInvoke() && (depth < 2 || (depth < 4 && strings.HasPrefix(fn.Synthetic, "instantiation wrapper"))) && w.InRepo(g) && len(g.Blocks) > 0 && isMapType(loaded.Type()) {
 				// a repository function over the map (a method of the map's named type, a helper): what it does with
 				// its parameter is done to the field
 				for i, a := range c.Args {
@@ -242,6 +255,23 @@ func (w *World) WithAccess(root *ssa.Function, a Access, f func(facts *Facts)) {
 	old := w.focus
 	defer w.restoreFocus(old)
 	w.Focus(root)
+	// an access reached through two calls (a generic wrapper's entry, then its body): the outer call is selected too
+	if a.Via != nil && a.Via != a.Site {
+		if g2 := a.Via.Common().StaticCallee(); g2 != nil && g2 != a.Fn {
+			if w.pinned == nil {
+				w.pinned = map[*ssa.Function]ssa.CallInstruction{}
+			}
+			old2, had2 := w.pinned[g2]
+			w.pinned[g2] = a.Via
+			defer func() {
+				if had2 {
+					w.pinned[g2] = old2
+				} else {
+					delete(w.pinned, g2)
+				}
+			}()
+		}
+	}
 	w.Pin(root, a.Fn, a.Site, f)
 }
 
